@@ -14,6 +14,8 @@
              | T<x>                 DECLARE tx VIEW (c1)   (a table is the variable x holding its number of rows;
                                     INSERT n rows = A<x> + v<x> i<n>, DELETE all = A<x> i0, DISPOSE VIEW = X<x>,
                                     (SELECT COUNT(*) FROM tx) = v<x>)
+             | O<c> | S<c> | H<c> v<x>      OPEN / CLOSE / FETCH … INTO @x on the cursor that is variable c (≥ 200) holding its
+                                    state; DECLARE c CURSOR over the rows off, off+1, off+2 is D<c> i<-off-1>
              | Z <n> stmt*n         SOURCE file / EXECUTE 'text' / EXECUTE prepared: the statements run in the current block
              | B | K | Q            BREAK | CONTINUE | EXIT
              | R expr               RETURN expr
@@ -143,6 +145,12 @@ partial def pStmt : P Stmt
           | none => none
         | _, _ => none
       else if t.front == 'T' then (tagNat 'T' t).map fun x => (.declT x, ts)
+      else if t.front == 'O' then (tagNat 'O' t).map fun c => (.cursor .open c 0, ts)
+      else if t.front == 'S' then (tagNat 'S' t).map fun c => (.cursor .close c 0, ts)
+      else if t.front == 'H' then
+        match tagNat 'H' t, ts with
+        | some c, v :: ts1 => (tagNat 'v' v).map fun x => (.cursor .fetch c x, ts1)
+        | _, _ => none
       else if t.front == 'X' then (tagNat 'X' t).map fun x => (.dispose x, ts)
       else if t.front == 'Y' then (tagNat 'Y' t).map fun x => (.disposeFn x, ts)
       else if t.front == 'F' then
@@ -182,6 +190,11 @@ def showVal : SVal → String
   | .int i => "I" ++ toString i
   | .tern t => "T" ++ t.toStr
 
+/-- a cursor variable: closed, or open with the number of rows passed (4: the end was hit) -/
+def showCursor : SVal → String
+  | .int s => if s < 0 then "C" else "O" ++ toString (s % 10)
+  | _ => "C"
+
 /-- csvq's error codes (lib/query/error_code.go) -/
 def errCode : Err → String
   | .undeclaredVar => "10301"
@@ -191,6 +204,8 @@ def errCode : Err → String
   | .redeclaredFn => "10501"
   | .dupParam => "10503"
   | .redeclaredTable => "11501"
+  | .cursorClosed => "11003"
+  | .cursorOpen => "11004"
   | .fuel => "fuel"
 
 def showOutcome : Outcome → String
@@ -213,7 +228,7 @@ def joinOr (dflt : String) (l : List String) : String :=
 
 def showRun (r : PRes) : String :=
   let vars := r.st.blocks.map fun b =>
-    joinOr "-" ((sortByKey b.vars).map fun (k, v) => toString k ++ "=" ++ showVal v)
+    joinOr "-" ((sortByKey b.vars).map fun (k, v) => toString k ++ "=" ++ (if k ≥ 200 then showCursor v else showVal v))
   let funs := r.st.blocks.map fun b =>
     joinOr "-" ((sortByKey b.funs).map fun (k, d) => toString k ++ ":" ++ toString d.params.length)
   String.intercalate " | " [showOutcome r.outcome, joinOr "-" (r.st.out.reverse.map showVal),
